@@ -235,6 +235,15 @@ def check_create_new_file(ctx, facts):
         calls = {o.what for o in fsrc if o.kind == "call"}
         if any(x.endswith("File::create") for x in calls) and b.dominates(sl.bb, s.bb):
             file_sync = s
+        if any(x.endswith("File::open") for x in calls) and b.dominates(sl.bb, s.bb):
+            # the same file opened again by its path (`File::open(&path)?.sync_all()`): fsync works on any handle of the file
+            _, cpl, _ = origins(b, c.node["args"][0], follow_all_calls=True)
+            cnamed = {l_ for l_ in (cpl or []) if b.local_name(l_)}
+            for o in fsrc:
+                if o.kind == "call" and o.what.endswith("File::open"):
+                    _, opl, _ = origins(b, o.site.node["args"][0], follow_all_calls=True)
+                    if cnamed and cnamed <= {l_ for l_ in (opl or []) if b.local_name(l_)} | {l_ for l_ in cnamed if b.local_name(l_) in ("self",)} and (cnamed - {l_ for l_ in cnamed if b.local_name(l_) == "self"}) & set(opl or []):
+                        file_sync = file_sync or s
         if any(x.endswith("File::open") for x in calls):
             # opened from root
             for o in fsrc:
